@@ -5,6 +5,7 @@
  */
 #include "common.h"
 #include "ops.h"
+#include "memtrack.h"
 #include <zlib.h>
 
 extern int liberasurecode_crc32_alt(int crc, const void *buf, size_t size);
@@ -284,11 +285,24 @@ void op_size(cfg_t c, uint64_t len) {
 }
 
 typedef struct { int be, k, m, hd, w; } create_a;
+static void run_create_once(void *va, FILE *out);
 static void run_create(void *va, FILE *out) {
+    if (mt_available()) {
+        /* blocks are counted on the second of two identical runs (one-time allocations of libc / the loader happen on the first) */
+        char *b = NULL; size_t n = 0; FILE *tmp = open_memstream(&b, &n);
+        run_create_once(va, tmp); fclose(tmp); free(b);
+    }
+    run_create_once(va, out);
+}
+static void run_create_once(void *va, FILE *out) {
     create_a *a = va;
     struct ec_args args; memset(&args, 0, sizeof args);
     args.k = a->k; args.m = a->m; args.hd = a->hd; args.w = a->w; args.ct = CHKSUM_NONE;
+    /* plain build: nothing may stay allocated after a refused create, nor after a full create..destroy cycle */
+    long b0 = 0; if (mt_available()) { mt_on(); b0 = mt_blocks(); }
     int d = liberasurecode_instance_create((ec_backend_id_t)a->be, &args);
+    long lk = (d <= 0 && mt_available()) ? mt_blocks() - b0 : 0;
+    if (lk) fprintf(out, "LEAK%ld ", lk);
     if (d > 0) {
         /* an accepted instance must survive a full cycle */
         unsigned char data[37]; for (int i = 0; i < 37; i++) data[i] = (unsigned char)(i * 7 + 1);
@@ -307,7 +321,9 @@ static void run_create(void *va, FILE *out) {
         (void)liberasurecode_get_aligned_data_size(d, 100);
         (void)liberasurecode_get_minimum_encode_size(d);
         int rx = liberasurecode_instance_destroy(d);
+        lk = (rx == 0 && mt_available()) ? mt_blocks() - b0 : 0;     /* before the first write to `out` allocates its buffer */
         if (rx != 0) fprintf(out, "destroy-err%d ", rx);
+        if (lk) fprintf(out, "LEAK%ld ", lk);
         fprintf(out, "ok");
     } else fprintf(out, "err %d", d);
 }
